@@ -378,8 +378,13 @@ def check_c_body(body, params=()):
             for x in t:
                 if isinstance(x, (tuple, list)):
                     yield from calls(x)
+    structs = {d.name for d in body.decls if d.kind == "op"}       # `const HexOp x_op = ...` (a struct, not a pointer)
     for d in body.decls:
         for c in calls(d.term):
+            for a_ in c[2]:
+                # every plugin function takes operands as `const HexOp *`: a struct variable needs its address taken
+                if a_[0] == "id" and a_[1] in structs:
+                    issues.append(("operand-struct-passed-by-value", f"{c[1]}(... {a_[1]} ...) in {d.name}"))
             want = CONTEXT_ARG.get(c[1])
             if want and (not c[2] or c[2][0] != ("id", want)):
                 issues.append(("plugin-call-context", f"{c[1]} gets {c[2][0] if c[2] else None} instead of {want} in {d.name}"))
